@@ -15,7 +15,7 @@ if ! git -C $WT apply $P 2>/dev/null; then
 fi
 : > $SD/detect.log
 for PROP in "$@"; do
-  ( cd /verif && PYTHONPATH=$WT/src VERIF_EVID_DIR=$OUT/evidence VERIF_REPLAY_DIR=$OUT/replays timeout 1500 ./check $PROP --tier quick > $OUT/$PROP.out 2>&1; echo "exit=$?" >> $OUT/$PROP.out )
+  ( cd /verif && PYTHONPATH=$WT/src VERIF_EVID_DIR=$OUT/evidence VERIF_REPLAY_DIR=$OUT/replays timeout 3600 ./check $PROP --tier quick > $OUT/$PROP.out 2>&1; echo "exit=$?" >> $OUT/$PROP.out )
   RC=$(grep -o "exit=[0-9]*" $OUT/$PROP.out | tail -1)
   NV=$(grep -c "^VIOLATION" $OUT/$PROP.out)
   echo "$ID $PROP $RC violations=$NV $(grep '^VIOLATION' $OUT/$PROP.out | head -1 | sed 's/replay=[^ ]* //' | cut -c1-160)" | tee -a $SD/detect.log
